@@ -902,6 +902,27 @@ fn part_c_poplar_prio2(ctx: &mut Ctx) {
                     let _ = misuse(ctx, "Poplar1::verify_init", &cls, json!({"bits": bits, "report_bits": other_bits, "level": level, "id": id}), catch(|| v.verify_init(&key, b"c16", id, &ap, &nonce, &ops, &oshares[id])));
                 }
             }
+            // MIXED report: this instance's own (right-length) public share with an input share made for the
+            // other bit length, and the other way round, at EVERY level of this instance. The input share
+            // (resp. public share) has the wrong length for the instance, so the call must return an error:
+            // neither Ok nor an index panic at the level where the foreign share runs out.
+            for level in 0..bits {
+                let pref = IdpfInput::from_bools(&vec![true; level + 1]);
+                let Ok(ap) = Poplar1AggregationParam::try_from_prefixes(vec![pref]) else { continue };
+                for id in 0..2 {
+                    for (what, pubs, ish) in [("input-share-of-other-bit-length", &ps, &oshares[id]), ("public-share-of-other-bit-length", &ops, &shares[id])] {
+                        let cls = format!("{what}|{}", if other_bits < bits { "shorter" } else { "longer" });
+                        ctx.count("poplar1_mixed_length_reports_offered");
+                        let r = misuse(ctx, "Poplar1::verify_init", &cls, json!({"bits": bits, "other_bits": other_bits, "level": level, "id": id}),
+                            catch(|| v.verify_init(&key, b"c16", id, &ap, &nonce, pubs, ish)));
+                        if r.is_some() {
+                            ctx.violation(format!("Poplar1::verify_init|{cls}|accepted"),
+                                "verify_init accepted a report whose input share / public share was made for another bit length (wrong length for this instance)",
+                                json!({"bits": bits, "other_bits": other_bits, "level": level, "id": id, "which": what}));
+                        }
+                    }
+                }
+            }
         }
         // wrong number of verifier shares
         let pref = IdpfInput::from_bools(&[true]);
